@@ -4,7 +4,7 @@ from __future__ import annotations
 import ast
 from typing import Optional
 
-from ..defuse import key, show
+from ..defuse import is_sym, key, show
 from ..engine import own_walk, return_exprs
 from ..model import AnalysisInconclusive
 from .common import attr_of_name, call_fname, concrete_devices, is_name, kwarg, raise_class, stmt_key
@@ -200,6 +200,22 @@ def context(ctx) -> None:
         vals = [fv.res.resolve(n.ast.value, n.id) for n in stores if n.ast.value is not None]
         ok = any(isinstance(v, ast.Call) and call_fname(v) == "Path" and v.args and is_name(v.args[0], "filepath") for v in vals) or any(is_name(v, "filepath") for v in vals)
         ctx.rep.check(ok, rule, f"{init.qualname}/filepath", "the configured path is stored", "the configured file path is not stored as given", where=init.where())
+        # `if self._filepath:` in __exit__ means "a path was configured" only while the stored value is None or a Path object
+        # (always true); a path kept as the caller's str makes "" look like "no path": nothing is written, nothing is refused
+        raw_str = any(is_name(v, "filepath") or (is_sym(v, "phi") and any(is_name(a_, "filepath") for a_ in v.args)) for v in vals)
+        for dev in [base] + concrete_devices(ctx):
+            ex = ctx.prog.find_method(dev, "__exit__")
+            if ex is None:
+                continue
+            ev = ctx.fv(ex, dev)
+            for cs in ev.calls():
+                if cs.callee.kind == "func" and cs.callee.func.name == "save":
+                    for d, pol in ev.controlling(cs.node):
+                        t = ev.cfg.nodes[d].ast
+                        truthy = attr_of_name(t, ex.params[0], "_filepath")
+                        ctx.rep.check(not (truthy and raw_str), rule, f"{dev.name}.__exit__/configured-test", "'a path is configured' is decided by `is not None` or on a Path object",
+                                      "the path is stored as the caller's str and __exit__ tests its truth value: a worklist created with filepath='' leaves the with-block without writing "
+                                      "a file and without the refusal that save('') gives", where=ex.where(cs.call))
 
 
 def strings(ctx) -> None:
